@@ -57,6 +57,8 @@ def _init():
 
 
 def zlabel(k, nest):
+    if nest == "dup":
+        return f"A{k}/X"           # every zone k becomes area A<k> with one sub-zone, and all sub-zones share the name X
     return f"Z{k}/U{k}/V{k}" if (nest and k == 2) else f"Z{k}"
 
 
@@ -86,7 +88,7 @@ def project(out, emb: Emb, nest=False):
     for t in out.targets:
         zname, _, kind = t.name.partition("/")
         kind = {"Direct Integration": "DI", "Total Process Target": "TZ", "Total Site Target": "TS"}.get(kind, kind)
-        zone = 0 if zname == "Site" else int(zname[1:]) if zname[:1] in "ZV" and zname[1:].isdigit() else -1
+        zone = 0 if zname == "Site" else int(zname[1:]) if zname[:1] in "ZVA" and zname[1:].isdigit() else -1
         if nest and zname == "Z2":
             zone = -1          # intermediate zone of the nested description (the leaf V2 plays zone 2)
         ct, ht = t.temp_pinch.cold_temp, t.temp_pinch.hot_temp
@@ -106,7 +108,7 @@ def project(out, emb: Emb, nest=False):
 def one_run(g, S, z, ladder, emb, extra_checks):
     run = dict(g=g, S=S, z=z, recs=[], err="", dtDefault=60, py=[])
     try:
-        nest = g == "nest"
+        nest = "dup" if g == "dup" else g == "nest"
         req = request(S, z, ladder, emb, with_units=(g == "perm"), nest=nest)
         out, mz = _OP["service"](req, project_name="Site", is_return_full_results=True)
         recs = project(out, emb, nest)
@@ -116,10 +118,10 @@ def one_run(g, S, z, ladder, emb, extra_checks):
             yield zn
             for sz in zn.subzones.values():
                 yield from walk(sz)
-        for zn in walk(mz):
-            if zn.identifier in ("Site", "Process Zone") and names.count(f"{zn.name}/Direct Integration") != 1:
-                run["py"].append("C14.one_DI_record_per_zone")
-                break
+        from collections import Counter
+        want = Counter(f"{zn.name}/Direct Integration" for zn in walk(mz) if zn.identifier in ("Site", "Process Zone"))
+        if Counter(n for n in names if n.endswith("/Direct Integration")) != want:       # zone names may repeat in different branches
+            run["py"].append("C14.one_DI_record_per_zone")
         if recs is None:
             run["err"] = "non-finite number in a record"
         else:
@@ -243,7 +245,7 @@ def kf_area_zero_dt(v, f):
 
 
 def kf_opzones(v, f):
-    return bool(v.detail.get("options", {}).get("DO_DIRECT_OPERATION_TARGETING")) and v.clause in ("C14.record_names_unique", "C14.one_DI_record_per_zone")
+    return bool(v.detail.get("options", {}).get("DO_DIRECT_OPERATION_TARGETING")) and v.clause == "C14.record_names_unique"
 
 
 def site_leg(run, tier, names, accept):
